@@ -106,6 +106,10 @@ type Spec struct {
 	UseUnderlying bool
 	UseZero       bool         // goverter:useZeroValueOnPointerInconsistency (enables *T -> T positions)
 	UpdRoot       map[int]bool // roots that also get an update-signature method
+	// UpdPtrRoot (C04, converter-level skipCopySameType, struct format): roots that get an
+	// update-signature method whose SOURCE is a pointer (`UpdP3(source *S3, target *T3)`);
+	// those roots carry direct T -> *T fields around identical unnamed composites.
+	UpdPtrRoot map[int]bool
 	UPlainPct     int          // chance that an unnamed struct has only basic fields (identical on both sides)
 	IgnoreMissing bool
 	AutoMethodSrc bool
@@ -395,6 +399,54 @@ func NewSpec(seed uint64, prop string) *Spec {
 		// make sure there is at least one fallible position
 		root := s.Roots[0]
 		root.Fields = append(root.Fields, s.mkField(len(root.Fields), s.genLeaf(), root))
+	}
+	if prop == "C07" {
+		// sibling positions inside ONE generated method whose location paths have equal length
+		// and the same innermost element but different prefixes: Pa.Value / Pb.Value,
+		// La[i] / Lb[i], Ma[key] / Mb[key] (appended after every other draw, so that the rest
+		// of the world is what it was before this construct existed)
+		root := s.Roots[int(ctxHash(seed, 7)%uint64(len(s.Roots)))]
+		us := func() *node {
+			return &node{Kind: "ustruct", Fields: []*field{
+				{Name: "Value", TName: "Value", N: s.leafNoMap()},
+				{Name: "Count", TName: "Count", N: &node{Kind: "basic", Basic: "int"}},
+			}}
+		}
+		add := func(name string, n *node) {
+			root.Fields = append(root.Fields, &field{Name: name, TName: name, N: n})
+		}
+		switch ctxHash(seed, 8) % 3 {
+		case 0:
+			add("Pa", us())
+			add("Pb", us())
+			add("Pc", &node{Kind: "slice", Elem: us()})
+			add("Pd", &node{Kind: "slice", Elem: us()})
+		case 1:
+			add("La", &node{Kind: "slice", Elem: s.leafNoMap()})
+			add("Lb", &node{Kind: "slice", Elem: s.leafNoMap()})
+			add("Lc", &node{Kind: "slice", Elem: s.leafNoMap()})
+		default:
+			add("Ma", &node{Kind: "map", Key: &node{Kind: "basic", Basic: "string"}, Elem: s.leafNoMap()})
+			add("Mb", &node{Kind: "map", Key: &node{Kind: "basic", Basic: "string"}, Elem: s.leafNoMap()})
+			add("Pa", us())
+			add("Pb", us())
+		}
+	}
+	if prop == "C04" && s.SkipCopy && s.Format == "struct" {
+		// (appended after every other draw) direct T -> *T fields around identical unnamed
+		// composites on the first root, which also gets an update method with a pointer source:
+		// the fields of *source are the caller's memory, not a local copy
+		root := s.Roots[0]
+		s.UpdPtrRoot = map[int]bool{root.ID: true}
+		pl := &node{Kind: "ustruct", Fields: []*field{{Name: "P0", TName: "P0", N: &node{Kind: "basic", Basic: "string"}}, {Name: "P1", TName: "P1", N: &node{Kind: "basic", Basic: "int"}}}}
+		for i, e := range []*node{
+			{Kind: "slice", Elem: &node{Kind: "basic", Basic: "string"}},
+			pl,
+			{Kind: "map", Key: &node{Kind: "basic", Basic: "string"}, Elem: &node{Kind: "basic", Basic: "int"}},
+		} {
+			name := fmt.Sprintf("Tq%d", i)
+			root.Fields = append(root.Fields, &field{Name: name, TName: name, N: &node{Kind: "tptr", Elem: e}})
+		}
 	}
 	if prop == "C07" && s.Seed%4 == 1 {
 		for _, id := range sortedIDs(s.Leaves) {
@@ -1099,6 +1151,9 @@ func (s *Spec) methods(twin bool) []methodSpec {
 		if s.PtrRoot[r.ID] {
 			ms = append(ms, methodSpec{Name: fmt.Sprintf("ConvPtr%d", r.ID), In: "*" + S, Out: out("*" + T)})
 		}
+		if s.UpdPtrRoot[r.ID] && !twin {
+			ms = append(ms, methodSpec{Name: fmt.Sprintf("UpdP%d", r.ID), In: "*" + S, Out: T, Update: true, Doc: []string{"goverter:update target"}})
+		}
 		if s.UpdRoot[r.ID] && (!twin || s.Prop == "C07") {
 			ms = append(ms, methodSpec{Name: fmt.Sprintf("Upd%d", r.ID), In: S, Out: T, Update: true, Fallible: fallible && !twin, Doc: []string{"goverter:update target"}})
 		}
@@ -1150,7 +1205,7 @@ func (s *Spec) methods(twin bool) []methodSpec {
 		}
 		// an update method of this struct needs the same field mappings
 		for i := range ms {
-			if ms[i].Update && ms[i].Name == fmt.Sprintf("Upd%d", id) {
+			if ms[i].Update && (ms[i].Name == fmt.Sprintf("Upd%d", id) || ms[i].Name == fmt.Sprintf("UpdP%d", id)) {
 				for _, l := range doc {
 					if strings.HasPrefix(l, "goverter:map ") {
 						ms[i].Doc = append(ms[i].Doc, l)
